@@ -1,2 +1,7 @@
-import Blackbird
-#print axioms Blackbird.dictGet
+import Blackbird.Props.C12
+#print axioms Blackbird.C12_load_independent
+#print axioms Blackbird.C12_tables_after_independent
+#print axioms Blackbird.C12_loads_independent
+#print axioms Blackbird.C12_history_independent
+#print axioms Blackbird.C12_success_leaves_nothing
+#print axioms Blackbird.C12_legacy_depends_on_history
